@@ -605,6 +605,8 @@ def match_known(known, prop, unit, fnname, e):
     for k in known.get("findings", []):
         if k["property"] != prop:
             continue
+        if k.get("proved_by_lemma") or not (k.get("tag") or k.get("function")):
+            continue      # witness-lemma findings never excuse a failing obligation; entries must name a tag or function
         if k.get("unit") and k["unit"] != unit:
             continue
         if k.get("function") and k["function"] != fnname:
